@@ -42,6 +42,7 @@ func vhServer() *Server {
 		// READONLY / CONFIG REWRITE write the configuration file (a no-op stub in the engine)
 		s.config.path = os.TempDir() + "/verif-tile38-config"
 	}
+	s.epool = newExprPool(s)
 	s.pubq = pubQueue{cond: sync.NewCond(&sync.Mutex{})}
 	s.monconns = make(map[net.Conn]bool)
 	s.pubsub = newPubsub()
